@@ -17,7 +17,7 @@ import (
 // protocolOut is the harness's own output channel: the original stdout. File descriptor 1 itself is
 // re-pointed at stderr so that the repository's logger (which prints to stdout) cannot corrupt the
 // case protocol.
-func protocolOut() *os.File {
+func ProtocolOut() *os.File {
 	fd, err := syscall.Dup(1)
 	if err != nil {
 		return os.Stdout
@@ -109,7 +109,7 @@ func Main(gen func(rng *Rng, tier string, emit func(string)), run func(input str
 		fmt.Fprintln(os.Stderr, "usage: gen --seed N --tier T | run")
 		os.Exit(2)
 	}
-	w := bufio.NewWriterSize(protocolOut(), 1<<20)
+	w := bufio.NewWriterSize(ProtocolOut(), 1<<20)
 	defer w.Flush()
 	switch os.Args[1] {
 	case "gen":
